@@ -21,6 +21,7 @@ import YalafiVerif.Properties.PlainGroupStmt
 import YalafiVerif.Properties.PlainMixStmt
 import YalafiVerif.Properties.PlainMix2Stmt
 import YalafiVerif.Properties.PlainMix3Stmt
+import YalafiVerif.Properties.PlainMix4Stmt
 import YalafiVerif.Properties.PlainFlowsStmt
 import YalafiVerif.Properties.PlainSkipStmt
 namespace Yalafi
